@@ -236,7 +236,7 @@ class DataConnection(Connection, abc.ABC):
         try:
             await self.set_state(ConnectionState.CONNECTING)
             async with atimeout(timeout):
-                self._reader, self._writer = await asyncio.open_connection(
+                reader, writer = await asyncio.open_connection(
                     self.hostname, self.port)
 
         except (Exception, asyncio.TimeoutError) as exc:
@@ -250,6 +250,14 @@ class DataConnection(Connection, abc.ABC):
             raise
 
         else:
+            if self.state != ConnectionState.CONNECTING:
+                # disconnect was called while the connection was being opened:
+                # the connection is closed and has to stay closed
+                writer.close()
+                raise ConnectionFailedError(
+                    f"{self.hostname}:{self.port} : disconnected while connecting")
+
+            self._reader, self._writer = reader, writer
             adapter.debug("connected", extra=self.__dict__)
             await self.set_state(ConnectionState.CONNECTED)
 
